@@ -82,11 +82,15 @@ func runE1Check(rc *runCtx, assumptions []string, extra func(cov map[string]inte
 	}
 	if len(sum.Infra) > 0 {
 		for _, m := range sum.Infra {
-			fmt.Fprintln(os.Stderr, "INFRASTRUCTURE:", m)
+			fmt.Fprintln(os.Stderr, "INFRASTRUCTURE:", firstN(m, 600))
 		}
 		cov["infrastructure_errors"] = sum.Infra
-		rc.writeEvidence(cov, assumptions, 0)
-		return 2
+		if len(sum.Findings) == 0 {
+			rc.writeEvidence(cov, assumptions, 0)
+			return 2
+		}
+		// reproducible violations were found as well: they are reported (exit 1); the parts of the
+		// exploration that broke down are listed in the evidence
 	}
 	if dbg := os.Getenv("VERIF_DEBUG_STATS"); dbg != "" {
 		f, _ := os.Create(dbg)
